@@ -18,7 +18,7 @@ pub fn determinism(props: &[String], evals: u64) -> i32 {
     for p in props {
         let mut digests = Vec::new();
         for (workers, seed) in [(3usize, 1u64), (16, 1), (7, 1)] {
-            let cfg = CheckCfg { prop: p.clone(), tier: Tier::Quick, seed, workers, evaluations: evals, wall_cap: Duration::from_secs(600), cpu_budget: 60, write_evidence: false, quiet: true };
+            let cfg = CheckCfg { prop: p.clone(), tier: Tier::Quick, seed, workers, evaluations: evals, wall_cap: Duration::from_secs(600), cpu_budget: 60, write_evidence: false, quiet: true, flavour: String::new() };
             let r = coord::run_check(&cfg);
             let c = &r.evidence["coverage"];
             digests.push((workers, c["episode_digest"].as_u64().unwrap_or(0), c["episodes_executed"].as_u64().unwrap_or(0), c["distinct_nontrivial"].as_u64().unwrap_or(0)));
